@@ -10,7 +10,6 @@ namespace vx {
 
 typedef __int128 i128;
 
-template<class T> inline unsigned nbits() { return 8 * sizeof(T); }
 template<class T> inline T from_u64(std::uint64_t b) { typename uint_of<T>::type u = (typename uint_of<T>::type)b; T t; std::memcpy(&t, &u, sizeof t); return t; }
 
 // 16-bit: every numerator only in the deepest tier of each family (scalar thorough); the vector thorough tier (level 1) keeps the lattice numerators
